@@ -160,6 +160,10 @@ impl Ctx {
                     }
                 } else {
                     self.st.outcome(tag);
+                    if tag != "err" && self.st.samples.len() < 2 && self.k % 97 == 0 {
+                        let c = describe();
+                        self.st.sample(|| json!({"case": c, "outcome": tag, "largest_request": max, "allocation_limit": self.limit}));
+                    }
                     if tag != "err" {
                         self.st.class(format!("{}|{}|{}", self.unit, tag, max / 1024));
                     }
@@ -254,6 +258,31 @@ fn unit_datum(cx: &mut Ctx, si: usize, tier: Tier) {
             y.extend(refbin::long_bytes(big));
             y.extend_from_slice(&[0, 0]);
             inputs.push(y);
+        }
+    }
+    // collections split over many blocks, each block within the limit but the sum far above it
+    if let crate::ast::S::Array(item) | crate::ast::S::Map(item) = &sc.s {
+        let is_map = matches!(sc.s, crate::ast::S::Map(_));
+        if let Some(minv) = val::values_min(item, &sc.env).first() {
+            let mut one = if is_map { vec![0x02, b'k'] } else { vec![] };
+            one.extend(refbin::encode(minv, item, &sc.env));
+            if one.len() <= 3 {
+                let per_block = (cx.limit / 64).clamp(1, 20_000);
+                for blocks in [2usize, 40, 400] {
+                    if per_block * blocks * one.len().max(1) > 4_000_000 {
+                        continue;
+                    }
+                    let mut x = vec![];
+                    for _ in 0..blocks {
+                        x.extend(refbin::long_bytes(per_block as i64));
+                        for _ in 0..per_block {
+                            x.extend_from_slice(&one);
+                        }
+                    }
+                    x.push(0);
+                    inputs.push(x);
+                }
+            }
         }
     }
     let vals = val::values(&sc.s, &sc.env, 2, 0);
